@@ -30,7 +30,16 @@ def _wrapper_classes(ctx):
     ws = ctx.wrappers()
     if len(ws) < 5:
         raise AnalysisError(f"expected ProblemWrapper and >= 4 subclasses, found {len(ws)}")
-    return ws
+    # a private base class that only factors out state shared by its subclasses (never constructed anywhere in pyhms, has
+    # subclasses) is not a wrapper a user can stack: its subclasses are checked with the inherited members resolved
+    out = []
+    for ci in ws:
+        if ci.name.startswith("_") and ctx.prog.subclasses(ci):
+            constructed = any(isinstance(c, ast.Call) and ctx.prog.resolve_class_expr(c.func, f.module) is ci for f in ctx.prog.all_functions() for c in body_walk(f.node) if isinstance(c, ast.Call))
+            if not constructed:
+                continue
+        out.append(ci)
+    return out
 
 
 def r16_1(ctx: Ctx):
@@ -103,11 +112,11 @@ def r16_2(ctx: Ctx):
             obs.append(ctx.ob("R16.2", f, f.node, detail=f"{ci.name}: (forwards, increments) over paths = {sorted({s.pair() for s in sums})}", construct=f"{ci.name}.count"))
     # who writes the counters
     seen_attrs = {}
-    for ci in _wrapper_classes(ctx):
+    for ci in ctx.wrappers():
         a = counter_attr(ctx, ci)
         if a:
             seen_attrs.setdefault(a, []).append(ci)
-    wrapper_q = {c.qualname for c in _wrapper_classes(ctx)}
+    wrapper_q = {c.qualname for c in ctx.wrappers()}
     for f in ctx.prog.all_functions():
         if f.name == "<module>":
             continue
@@ -461,7 +470,7 @@ def r16_7(ctx: Ctx):
 
 RULES = [
     ("R16.1", r16_1, 5),
-    ("R16.2", r16_2, 6),
+    ("R16.2", r16_2, 5),
     ("R16.3", r16_3, 3),
     ("R16.4", r16_4, 5),
     ("R16.5", r16_5, 5),
